@@ -133,7 +133,7 @@ func c11Gen(rng *rand.Rand, maxOps int) (sess0, cook0 map[string]string, ops []c
 		}
 		switch {
 		case r < wprob/2:
-			ops = append(ops, c11Op{T: "hdr", Code: []int{200, 302, 307, 401, 404, 500}[rng.Intn(6)], Depth: d})
+			ops = append(ops, c11Op{T: "hdr", Code: []int{200, 302, 307, 401, 404, 500, 100, 103, 204, 304}[rng.Intn(10)], Depth: d})
 		case r < wprob:
 			body := val()
 			if rng.Intn(5) == 0 { // a zero-length write still commits the header
@@ -337,6 +337,7 @@ func init() {
 					{T: "ev", S: "cook", Ev: &c11Ev{K: "put", Key: hx("rm"), Val: hx("t")}, Depth: 2},
 					{T: "ev", S: "cook", Ev: &c11Ev{K: "del", Key: hx("rm")}},
 					{T: "hdr", Code: 302},
+					{T: "hdr", Code: 103, Depth: 1}, // an informational status: the state goes out with it, once
 					{T: "body", Body: hx("b"), Depth: 1},
 					{T: "body", Body: ""},
 					{T: "get", S: "sess", Key: hx("uid")},
